@@ -527,13 +527,13 @@ theorem handlePeerMsg_inv (s : Sess) (sid : String) (it : Item) (inv : SessInv s
       simp only [this, if_false]
       exact ⟨inv1, rfl⟩
     | some r =>
-      simp only
+      simp only [all_peerClean, fireC_all]
       split
       · exact fire_inv _ sid r _ _ inv1 (alookup_mem sid s.req r hl)
       · exact ⟨inv1, rfl⟩
 
 theorem handleRequest_inv (s : Sess) (sid : String) (num : Int) (inv : SessInv s) :
-    SessInv (handleRequest s sid num).1 ∧ (handleRequest s sid num).2.isPanic = false := by
+    SessInv (handleRequest Cfg.all s sid num).1 ∧ (handleRequest Cfg.all s sid num).2.isPanic = false := by
   unfold handleRequest
   have sub : ((aerase sid s.req).map (fun e => e.2.chan)).Sublist (chans s) := (aerase_sublist sid s.req).map _
   have inv1 : SessInv { s with req := ainsert sid { num := num, chan := s.next } s.req, next := s.next + 1 } := by
@@ -552,7 +552,7 @@ theorem handleRequest_inv (s : Sess) (sid : String) (num : Int) (inv : SessInv s
       refine ⟨fun h => absurd (inv.lt _ (sub.subset h)) (by simp), inv.nodup.sublist sub⟩
     · intro c h; have := inv.closedLt c h; simp; omega
     · exact inv.alive
-  simp only
+  simp only [all_reqClean, fireC_all]
   split
   · exact fire_inv _ sid _ _ _ inv1 (by simp [ainsert])
   · exact ⟨inv1, rfl⟩
@@ -560,12 +560,12 @@ theorem handleRequest_inv (s : Sess) (sid : String) (num : Int) (inv : SessInv s
 /-- the expiry sweep closes only channels of registrations that are in the map, whose channel is
 open by the invariant: never a double close, whatever ids are reported done and in whatever order -/
 theorem expire_inv (done : List String) : ∀ (s : Sess) (k : Nat), SessInv s →
-    SessInv (expire s done k).1 ∧ (expire s done k).2.isPanic = false := by
+    SessInv (expire Cfg.all s done k).1 ∧ (expire Cfg.all s done k).2.isPanic = false := by
   induction done with
   | nil => intro s k inv; exact ⟨inv, rfl⟩
   | cons sid rest ih =>
     intro s k inv
-    simp only [expire]
+    simp only [expire, all_expClean, fireC_all]
     cases hl : alookup sid s.req with
     | none => exact ih s k inv
     | some r =>
